@@ -1,4 +1,4 @@
-//@file parent=src/client/mod.rs
+//@file parent=src/client/mod.rs ignore=^__rust_dealloc\s\|
 // Client lifecycle: handshake (C07), event grammar (C08), disconnect (C09), timeouts (C10), hostile frames (C03).
 // The connection object is the opaque model of verif_env (see env.rs); the socket is the ghost-logged model.
 use super::*;
@@ -104,7 +104,7 @@ fn o7_2_client_connects_only_on_matching_syn_ack() {
         let s = c.socket.sent(0);
         assert!(s.len == 9 && s.head[0] == 2 && be32(&s.head, 1) == f.nonce, "[C07] the handshake ACK returns the server's nonce");
         // negotiated parameters handed to the connection
-        let hc = oq::last_config().unwrap();
+        let hc = match c.state { State::Active(ref st) => st.half_connection.config.clone().unwrap(), _ => panic!("not active") };
         assert!(unsafe { oq::NEW_COUNT } == 1);
         assert!(hc.tx_frame_base_id == n && hc.rx_frame_base_id == f.nonce, "[C07] frame ids start at the exchanged nonces");
         assert!(hc.tx_packet_base_id == (n & 0xFFFFF) && hc.rx_packet_base_id == (f.nonce & 0xFFFFF), "[C07] packet ids start at the exchanged nonces (20 bit)");
